@@ -5,6 +5,14 @@ unspecified orderings) but do NOT break the property. The checks must stay silen
 import json, sys
 pid = sys.argv[1]
 n = sys.argv[2] if len(sys.argv) > 2 else "3"
+first = int(sys.argv[3]) if len(sys.argv) > 3 else 1
+import glob
+tried = []
+for mf in sorted(glob.glob('/verif/benign/%s-b*/meta.json' % pid)):
+    try:
+        tried.append("- " + json.load(open(mf)).get("summary", "")[:240].replace("\n", " "))
+    except Exception:
+        pass
 for l in open('/verif/properties.jsonl'):
     p = json.loads(l)
     if p['id'] == pid:
@@ -23,7 +31,8 @@ TASK: produce {n} DIFFERENT source changes to atlas, each independent and each a
 
 Be honest and careful: if you are not sure the property still holds for EVERY input after your change, do not submit that variant — pick a safer one. A variant that breaks the property is worse than useless here.
 
-For each variant i = 1..{n} write into /var/tmp/seed/out-{pid}/b<i>/ :
+{("ALREADY DONE by earlier maintainers — do NOT repeat these or close variations; choose other functions, other kinds of harmless change (for example: a different but equivalent order of operations, an additional harmless statement or file-system / database read, a changed default that is irrelevant to the property, different whitespace / casing / quoting style in generated SQL or HCL where the engine treats both the same, splitting or merging of log lines, extra fields in JSON output, renamed internal keys, changed timing such as an added short sleep or retry):" + chr(10) + chr(10).join(tried) + chr(10)) if tried and first > 1 else ""}
+For each variant i = {first}..{first + int(n) - 1} write into /var/tmp/seed/out-{pid}/b<i>/ :
   - patch.diff : `git diff` of the change against the worktree HEAD (apply-able with `git apply`)
   - meta.json  : {{"property": "{pid}", "summary": "<what changed>", "observable_difference": "<what a user/tool can see differently>", "why_property_still_holds": "<argument, for every input>", "files_touched": [...], "existing_tests_pass": true}}
 Practical notes: run the existing test suites with a private temp dir (`export TMPDIR=$(mktemp -d)`) — sql/sqlite's lock test uses a fixed file name under os.TempDir() and fails spuriously when several suites run at once; sql/sqltool's TestFormatters and cmdapi's TestMigrate_Diff are wall-clock dependent and may fail once on a second boundary (re-run).
